@@ -17,6 +17,16 @@ from .cfg import ClassInfo, Compiler, Ins, Model
 from .interp import Unsupported
 
 BODY_BASE = 1000000
+BW = 10  # control variables (pc, schedule, lock owner/count, ghost counters) are bit-vectors: no arithmetic theory needed
+
+
+def ISort():
+    return z3.BitVecSort(BW)
+
+
+def IVal(n):
+    return z3.BitVecVal(n, BW)
+
 
 
 class Values:
@@ -115,7 +125,7 @@ class System:
         vals = self.vals
         T = len(self.threads)
         cs: List[Any] = list(self.init_constraints)
-        sched = [z3.Int(f"sched_{k}") for k in range(K)]
+        sched = [z3.BitVec(f"sched_{k}", BW) for k in range(K)]
 
         def mkvar(name, sort, k):
             return z3.Const(f"{name}@{k}", sort)
@@ -124,24 +134,24 @@ class System:
         for k in range(K + 1):
             d: Dict[str, Any] = {}
             for th in self.threads:
-                d[f"pc{th.tid}"] = mkvar(f"pc{th.tid}", z3.IntSort(), k)
-                d[f"callno{th.tid}"] = mkvar(f"callno{th.tid}", z3.IntSort(), k)
-                d[f"savedcnt{th.tid}"] = mkvar(f"savedcnt{th.tid}", z3.IntSort(), k)
+                d[f"pc{th.tid}"] = mkvar(f"pc{th.tid}", ISort(), k)
+                d[f"callno{th.tid}"] = mkvar(f"callno{th.tid}", ISort(), k)
+                d[f"savedcnt{th.tid}"] = mkvar(f"savedcnt{th.tid}", ISort(), k)
                 for l in th.locals:
                     d[f"L{th.tid}:{l}"] = mkvar(f"L{th.tid}:{l}", V, k)
                 for s in th.op_slots:
-                    d[f"status:{s}"] = mkvar(f"status:{s}", z3.IntSort(), k)  # 0 pending, 1 returned, 2 raised
+                    d[f"status:{s}"] = mkvar(f"status:{s}", ISort(), k)  # 0 pending, 1 returned, 2 raised
                     d[f"result:{s}"] = mkvar(f"result:{s}", V, k)
             for f, kind in self.fields.items():
                 if kind in ("val", "const"):
                     d[f"F:{f}"] = mkvar(f"F:{f}", V, k)
                 elif kind in ("lock", "cond"):
-                    d[f"own:{f}"] = mkvar(f"own:{f}", z3.IntSort(), k)
-                    d[f"cnt:{f}"] = mkvar(f"cnt:{f}", z3.IntSort(), k)
+                    d[f"own:{f}"] = mkvar(f"own:{f}", ISort(), k)
+                    d[f"cnt:{f}"] = mkvar(f"cnt:{f}", ISort(), k)
             for g in ("g_running", "g_ncalls", "g_maxrunning", "g_ntrans", "g_callafter"):
-                d[g] = mkvar(g, z3.IntSort(), k)
+                d[g] = mkvar(g, ISort(), k)
             d["g_badwatch"] = mkvar("g_badwatch", z3.BoolSort(), k)
-            d["g_returned_calls"] = mkvar("g_returned_calls", z3.IntSort(), k)
+            d["g_returned_calls"] = mkvar("g_returned_calls", ISort(), k)
             for m in range(self.max_trans):
                 d[f"g_trold{m}"] = mkvar(f"g_trold{m}", V, k)
                 d[f"g_trnew{m}"] = mkvar(f"g_trnew{m}", V, k)
@@ -196,7 +206,7 @@ class System:
                 cs.append(z3.Implies(sel_t, en_t))
             any_en = z3.Or(*en_list)
             enabled_any.append(any_en)
-            cs.append(z3.And(sched[k] >= -1, sched[k] < T))
+            cs.append(z3.Or(sched[k] == -1, *[sched[k] == t_ for t_ in range(T)]))
             cs.append((sched[k] == -1) == z3.Not(any_en))
             for name, ups in updates.items():
                 e = cur[name]
@@ -251,7 +261,7 @@ class System:
             cnts[lk] = c
         for lk, c in cnts.items():
             ups.append((f"cnt:{lk}", c))
-            ups.append((f"own:{lk}", z3.If(c == 0, z3.IntVal(-1), cur[f"own:{lk}"])))
+            ups.append((f"own:{lk}", z3.If(c == 0, IVal(-1), cur[f"own:{lk}"])))
         return ups
 
     def step(self, th: Thread, i: int, ins: Ins, cur):
@@ -283,13 +293,13 @@ class System:
             return TRUE, [], [(TRUE, th.labels[ins.a])]
         if k == "acquire":
             own, cnt = cur[f"own:{ins.a}"], cur[f"cnt:{ins.a}"]
-            return z3.Or(own == -1, own == t), [(f"own:{ins.a}", z3.IntVal(t)), (f"cnt:{ins.a}", cnt + 1)], NXT
+            return z3.Or(own == -1, own == t), [(f"own:{ins.a}", IVal(t)), (f"cnt:{ins.a}", cnt + 1)], NXT
         if k == "release":
             return TRUE, self._release_ups(th, [ins.a], cur), NXT
         if k == "op_done":
-            return TRUE, [(f"status:{ins.a}", z3.IntVal(1)), (f"result:{ins.a}", self.ev(th, ins.b, cur))], NXT
+            return TRUE, [(f"status:{ins.a}", IVal(1)), (f"result:{ins.a}", self.ev(th, ins.b, cur))], NXT
         if k == "op_raise":
-            return TRUE, [(f"status:{ins.a}", z3.IntVal(2))], [(TRUE, th.op_end[ins.a])]
+            return TRUE, [(f"status:{ins.a}", IVal(2))], [(TRUE, th.op_end[ins.a])]
         if k == "event":
             old, new = [self.ev(th, a, cur) for a in ins.b]
             real = z3.Or(*[z3.And(cur["g_ntrans"] > m, cur[f"g_trold{m}"] == old, cur[f"g_trnew{m}"] == new)
@@ -308,8 +318,8 @@ class System:
                 return TRUE, ups, NXT
             if k == "ucall_exit":
                 cn = cur[f"callno{t}"]
-                thr = vals.app0_throws(cn)
-                res = vals.o(BODY_BASE + cn)
+                thr = vals.app0_throws(z3.BV2Int(cn))
+                res = vals.o(BODY_BASE + z3.BV2Int(cn))
                 ups = [("g_running", cur["g_running"] - 1),
                        ("g_returned_calls", z3.If(thr, cur["g_returned_calls"], cur["g_returned_calls"] + 1))]
             else:
@@ -328,14 +338,14 @@ class System:
                 return TRUE, ups, [(thr, th.labels[lab]), (z3.Not(thr), i + 1)]
             rel = self._release_ups(th, locks, cur)
             ups += [(nm, z3.If(thr, v, cur[nm])) for nm, v in rel]
-            ups.append((f"status:{slot}", z3.If(thr, z3.IntVal(2), cur[f"status:{slot}"])))
+            ups.append((f"status:{slot}", z3.If(thr, IVal(2), cur[f"status:{slot}"])))
             return TRUE, ups, [(thr, th.op_end[slot]), (z3.Not(thr), i + 1)]
         if k == "wait_for":
             lk, pred, target, timeout = ins.a, ins.b, ins.c, ins.d
             p = vals.truthy(self.ev(th, pred, cur))
             ups = [(f"savedcnt{t}", z3.If(p, cur[f"savedcnt{t}"], cur[f"cnt:{lk}"])),
-                   (f"cnt:{lk}", z3.If(p, cur[f"cnt:{lk}"], z3.IntVal(0))),
-                   (f"own:{lk}", z3.If(p, cur[f"own:{lk}"], z3.IntVal(-1)))]
+                   (f"cnt:{lk}", z3.If(p, cur[f"cnt:{lk}"], IVal(0))),
+                   (f"own:{lk}", z3.If(p, cur[f"own:{lk}"], IVal(-1)))]
             if target is not None:
                 ups.append((f"L{t}:{target}", z3.If(p, vals.b(True), cur[f"L{t}:{target}"])))
             return cur[f"own:{lk}"] == t, ups, [(p, i + 2), (z3.Not(p), i + 1)]
@@ -343,7 +353,7 @@ class System:
             lk, pred, target, timeout = ins.a, ins.b, ins.c, ins.d
             p = vals.truthy(self.ev(th, pred, cur))
             has_timeout = z3.BoolVal(False) if timeout is None else (self.ev(th, timeout, cur) != V.nil)
-            ups = [(f"own:{lk}", z3.IntVal(t)), (f"cnt:{lk}", cur[f"savedcnt{t}"])]
+            ups = [(f"own:{lk}", IVal(t)), (f"cnt:{lk}", cur[f"savedcnt{t}"])]
             if target is not None:
                 ups.append((f"L{t}:{target}", vals.b(p)))
             return z3.And(cur[f"own:{lk}"] == -1, z3.Or(p, has_timeout)), ups, NXT
@@ -383,7 +393,7 @@ class System:
             raise Unsupported("local instruction sequence too long (local loop?)")
         if not first and self.is_cut(th, i):
             d2 = dict(d)
-            d2[pcn] = z3.IntVal(i)
+            d2[pcn] = IVal(i)
             return d2
         ins = th.ins[i]
         _, ups, succs = self.step(th, i, ins, d)
@@ -419,7 +429,7 @@ class System:
     def trace(self, model) -> List[Dict[str, Any]]:
         out = []
         for k in range(self.K):
-            t = model.eval(self.sched[k], model_completion=True).as_long()
+            t = model.eval(self.sched[k], model_completion=True).as_signed_long()
             if t < 0:
                 continue
             th = self.threads[t]
